@@ -59,6 +59,19 @@ def load_scenario(cid):
     return importlib.import_module(CHECKS[cid])
 
 
+def _determinism_record(cid):
+    p = os.path.join(VERIF, "evidence", "determinism_selftest.json")
+    try:
+        with open(p) as fh:
+            d = json.load(fh)
+        r = dict(d["results"].get(cid, {}))
+        r["how"] = "same run indices executed twice: 16 workers / PYTHONHASHSEED=0 vs 3 workers / PYTHONHASHSEED=12345 in a fresh interpreter; run hashes (event digest, verdicts, coverage keys, counters) compared"
+        r["at_unix"] = d.get("at_unix")
+        return r
+    except Exception:  # noqa: BLE001
+        return {"note": "run ./check selftest-determinism to (re)generate evidence/determinism_selftest.json"}
+
+
 def load_known():
     p = os.path.join(VERIF, "known_findings.json")
     if not os.path.exists(p):
@@ -341,14 +354,19 @@ def run_check(cid, tier, seed, n_override=None, wall_override=None, workers=None
             "logical_time": {"events": int(stats.get("events", 0)), "line_steps": int(stats.get("line_steps", 0))},
             "faults_fired": {k[6:]: int(v) for k, v in sorted(stats.items()) if k.startswith("fault.")},
             "probes": {k[6:]: int(v) for k, v in sorted(stats.items()) if k.startswith("probe.")},
-            "not_judged": {k[4:]: int(v) for k, v in sorted(stats.items()) if k.startswith("nj.")},
+            "not_judged": {k[3:]: int(v) for k, v in sorted(stats.items()) if k.startswith("nj.")},
             "oracle_evaluations": {k[3:]: int(v) for k, v in sorted(stats.items()) if k.startswith("or.")},
             "components": sc.COMPONENTS,
             "batch_digest": digest_all.hexdigest(),
             "known_findings_hit": {k: int(v) for k, v in sorted(known_hits.items())},
             "violations_reported": reported,
             "workers": workers,
+            "simulated_time": "logical: %d actor events, %d traced line steps inside lbfgsb/* (the code under test reads no clock)"
+            % (int(stats.get("events", 0)), int(stats.get("line_steps", 0))),
+            "determinism_selftest": _determinism_record(cid),
         }
+        if any(k.startswith("sched:") for k in keys):
+            cov["distinct_schedules"] = sum(1 for k in keys if k.startswith("sched:"))
         ev = {
             "property_id": cid,
             "tier": tier,
